@@ -335,7 +335,8 @@ class Agent(dbus.service.Object):
         try:
             ctr = self._fwd_queue.pop(0)
 
-            for blk in ctr.block_type(PreviousNodeBlock):
+            # copy the lists, removal edits them
+            for blk in list(ctr.block_type(PreviousNodeBlock)):
                 ctr.remove_block(blk)
             ctr.add_block(CanonicalBlock() / PreviousNodeBlock(node=self._config.node_id))
 
@@ -346,7 +347,7 @@ class Agent(dbus.service.Object):
 
             create_dtntime = ctr.bundle.primary.create_ts.getfieldval('dtntime')
             if create_dtntime != 0:
-                for blk in ctr.block_type(BundleAgeBlock):
+                for blk in list(ctr.block_type(BundleAgeBlock)):
                     ctr.remove_block(blk)
                 now_dtntime = self.timestamp().getfieldval('dtntime')
                 age = now_dtntime - create_dtntime
@@ -356,7 +357,11 @@ class Agent(dbus.service.Object):
                 # so keep it and add the time spent at this node
                 now_pytime = datetime.datetime.now(datetime.timezone.utc)
                 dwell = (now_pytime - ctr.actions['receive']) // datetime.timedelta(milliseconds=1)
-                for blk in ctr.block_type(BundleAgeBlock):
+                age_blks = sorted(ctr.block_type(BundleAgeBlock), key=lambda blk: blk.payload.age, reverse=True)
+                for blk in age_blks[1:]:
+                    # at most one age block may leave, keep the oldest claim
+                    ctr.remove_block(blk)
+                for blk in age_blks[:1]:
                     blk.payload.age += dwell
                     blk.delfieldval('btsd')
 
